@@ -32,7 +32,7 @@ def corpus():
         case(0, 0, 0, 28, 18, 7, 0),
         case(0, 1, 2, 0, 5, 3, 2),      # ignore-dropped must not mask the failure tolerance
         case(0, 1, 0, 0, 5, 1, 2),
-    ] + [c for c in __import__("vlib.props._plan", fromlist=["x"]).cli_corpus() if "maxfail" in c or "igndrop" in c or "fail=" in c or "bodyms=30" in c]
+    ] + __import__("vlib.props._plan", fromlist=["x"]).cli_corpus_for("C08")
 
 
 def generate(rng, tier):
